@@ -523,3 +523,69 @@ Arguments worker_step {T}.
 Arguments run_workers {T}.
 Arguments alive {T}.
 Arguments pool_stop {T}.
+
+(* ------------------------------------------------------------------ stopping through SeedProgress.running() *)
+
+(* _walk asks seed_progress.running() once per call, after the entry report; when it answers False the call reports its
+   position once more (if its level is seeded) and raises StopProcess.  The exception passes through every enclosing
+   `with step_down(...)` WITHOUT running the part after the yield (level_progresses keeps the position), skips the rest
+   of every enclosing loop, is caught in walk(), and walk() ends with its usual final report.
+   scnt = number of running() calls that still answer True (None: always True). *)
+Record sstate := mkS { sw : wstate; scnt : option nat; shalt : bool }.
+
+Definition run_sub_s (rn : wnode -> sstate -> list event * sstate) (old : option path)
+           (lv : Z) (proc : bool) (total : Z) (i : Z) (s : sub wnode) (st : sstate) : list event * sstate :=
+  match s with
+  | SNone => ([], st)
+  | SLeaf t => let '(ev, w) := do_process proc lv t (sw st) in (ev, mkS w (scnt st) (shalt st))
+  | SRec t c =>
+    let w_in := mkW (step_down_enter (ps (sw st)) i total) (dq (sw st)) in
+    let st_in := mkS w_in (scnt st) (shalt st) in
+    let '(evc, stc) :=
+      if already_processed old (ps w_in) then ([], st_in) else rn c st_in in
+    if shalt stc then (evc, stc)              (* StopProcess on its way up: nothing after the yield, no own tile *)
+    else
+      let w_out := mkW (step_down_exit (ps (sw stc))) (dq (sw stc)) in
+      let '(evp, wp) := do_process proc lv t w_out in
+      (evc ++ evp, mkS wp (scnt stc) false)
+  end.
+
+Definition run_subs_s (rn : wnode -> sstate -> list event * sstate) (old : option path)
+           (lv : Z) (proc : bool) (total : Z) :=
+  fix loop (ss : list (sub wnode)) (i : Z) (st : sstate) {struct ss} : list event * sstate :=
+    match ss with
+    | [] => ([], st)
+    | s :: rest =>
+      let '(ev1, st1) := run_sub_s rn old lv proc total i s st in
+      if shalt st1 then (ev1, st1)
+      else let '(ev2, st2) := loop rest (i + 1) st1 in (ev1 ++ ev2, st2)
+    end.
+
+Fixpoint run_node_s (old : option path) (n : wnode) (st : sstate) {struct n} : list event * sstate :=
+  match n with
+  | WErr => ([EErr], st)
+  | WNode lv proc rep total subs =>
+    let here := ERep lv (progress_ident old (ps (sw st))) in
+    let ev0 := if rep then [here] else [] in
+    match scnt st with
+    | Some O => (ev0 ++ (if proc then [here] else []), mkS (sw st) (scnt st) true)
+    | c =>
+      let st1 := mkS (sw st) (match c with Some (S k) => Some k | _ => None end) false in
+      let '(evs, st') := run_subs_s (run_node_s old) old lv proc total subs 0 st1 in
+      (ev0 ++ evs, st')
+    end
+  end.
+
+(* TileWalker.walk with a SeedProgress whose running() answers True `stop` times and then False *)
+Definition run_walk_s (old : option path) (tree : wnode) (final_lv : Z) (stop : option nat) : list event :=
+  until_err
+    (if already_processed old (ps st0) then [ERep final_lv (progress_ident old (ps st0))]
+     else
+       let '(ev, st) := run_node_s old tree (mkS st0 stop false) in
+       ev ++ [ERep final_lv (progress_ident old (ps (sw st)))]).
+
+Definition geo_walk_s (g : grid) (msx msy : Z) (cov : bbox -> Z) (skipk : Z) (levels : list Z)
+           (root : bbox) (old : option path) (stop : option nat) : list event :=
+  run_walk_s old
+             (geo_tree g msx msy cov skipk (report_till levels) (S (length (ress g))) root levels 0 false)
+             (hd 0 levels) stop.
